@@ -52,6 +52,56 @@ CHECKS = {
   "The built cim2bin/cim2cas binaries are executed on generated images (boundary lengths incl. last byte exactly at FFFF, arbitrary contents, offsets 0..FFFF, names over all byte values incl. multi-byte UTF-8, default name) and the output file is compared byte for byte with the container layout written out from the property.",
   "I/O error paths are outside the property.",
   "DESIGN.md §3 C19"),
+ "C04": ("exploration",
+  "closed-form specification monitor on CPU.Step (condition table, address arithmetic, stack layout) with bus log",
+  "Every conditional opcode x all 256 F, DJNZ x all 256 B, relative jumps x all 256 offsets, and the unconditional transfers, each x hundreds/thousands of boundary samples (PC at FFFD..FFFF, SP at 0/1/2/FFFF, stack bytes overlapping the instruction): whole expected States, exact stack writes and permitted data reads from a 20-line closed form independent of the reference model; two-Step laws CALL;RET and PUSH;POP for all six pairs.",
+  "RETI IFF tolerance. Data sampled; control bits exhaustive.",
+  "DESIGN.md §3 C04"),
+ "C06": ("exploration",
+  "abstract interrupt-controller model stepped alongside CPU.Step; exhaustive control product plus seeded histories on an instruction tape",
+  "All 48 combinations of request type x IM x IFF1 x IFF2 x running/halted with boundary data (all 256 vector bytes, 8 RST + CALL in mode 0, PC=FFFF, SP wrap, stack bytes meeting PC) judged by the controller model transcribed from the property (consumption, handler address, IFF1/IFF2, SP, stack bytes, no program fetch; refused = identical to the twin Step); tens of thousands of histories over EI/DI/RETN/RETI/HALT/LD A,I/IM n/raise NMI/raise INT with nesting depth <= 3; handler-notification sweep over all 930 encodings.",
+  "EI-delay and RETI-IFF tolerances; mode-0 pushed value is C07's subject; odd mode-2 vectors accept masked or unmasked table address.",
+  "DESIGN.md §3 C06"),
+ "C07": ("fault_enumeration",
+  "twin execution with an interrupt injected at every Step boundary of generated programs (fault enumeration), return-address monitor at acceptance",
+  "Hundreds (quick) / thousands (thorough) of generated register-transparent programs x 6 interrupt kinds x EVERY injection point k=0..N+2 (incl. between block repetitions, inside DI sections, parked on HALT): the interrupted run must end with the same registers, flags, IFF, memory and device traffic as the undisturbed run, handler run exactly once; the address found at SP in the accepting Step must be the first unexecuted instruction. The mode-0 resume defect is a recorded known finding (compensated continuation keeps the rest of mode 0 under test).",
+  "Handler transparent by construction. Known finding C07/im0-resume=pc+len(data) (test-pinned, cannot be repaired with the suite unedited).",
+  "DESIGN.md §3 C07"),
+ "C08": ("exploration",
+  "twin monitor: Run vs a Step-driven twin under the property's stop rule, full ordered bus logs, logical watchdog",
+  "Thousands of configurations (generated terminating programs incl. wraparound and HALT-at-FFFF layouts x breakpoint-set classes x stale HALT x callback-raised NMI/INT): after every Run call (continuing after each breakpoint stop, then once more on the halted CPU) return value, States incl. R, HALT, pending request and the complete ordered memory and port logs are compared with a twin CPU driven by Step under the stop rule; requests raised by callbacks must be pending at the next boundary.",
+  "Step itself is judged by C01/C05; the watchdog is the twin's access count (no wall clock).",
+  "DESIGN.md §3 C08"),
+ "C09": ("exploration",
+  "whole-operation functional specification (loops over a byte array) vs Step-by-Step execution with per-Step bus monitor",
+  "Tens of thousands of whole block operations (counts 0,1,2,255,256,65535,random; overlapping, self-covering and wrapping ranges; A absent/present/at the last element) run to completion (up to 65536 Steps): per Step exactly one element and PC on/after the instruction; final registers, documented flags, memory image, port log and Step count compared with a direct loop specification.",
+  "Block-I/O flags documented-or-silicon; a self-overwriting operation is judged on the prefix.",
+  "DESIGN.md §3 C09"),
+ "C10": ("exploration",
+  "per-Step digest monitors (determinism, rebuild-from-public-state at every boundary vs hidden-state copy, memory-type independence) under the Go race detector",
+  "Generated programs with callback-raised interrupts: two runs equal per Step; at EVERY Step boundary a CPU rebuilt from copies of States+memory+device+pending request runs against a value copy of the original (which keeps hidden per-instance state), with and without a fresh request; 2/4/8/16 goroutines each driving its own CPU against the sequential baseline; alternating CPUs; the same program on DumbMemory/MapMemory/tinycpm.Memory handed over directly; race reports collected (halt_on_error=0) and attributed to z80 frames.",
+  "Race detector finds only races that the executed interleavings expose.",
+  "DESIGN.md §3 C10"),
+ "C12": ("exploration",
+  "crash-isolated worker processes with recover(), logical bus-access watchdogs and the log monitor",
+  "All 65536 two-byte openings (and all DDCB/FDCB fourth bytes) as single Steps; arbitrary byte programs on every memory/IO configuration class (short DumbMemory with the program cut off, MapMemory, nil/short IO, handed over directly or monitored), arbitrary States (IM out of range) and Interrupt values (any Type, empty/long data, injected at random Steps, at FFFF, from inside callbacks); Run on generated programs must return when a Step-driven twin executes a HALT. Invalid-opcode Steps must only consume their bytes.",
+  "Hangs that make no bus access are caught only by a 2 x 20 s no-progress monitor in the worker (last resort).",
+  "DESIGN.md §3 C12"),
+ "C13": ("exploration",
+  "race detector + logical promptness counter in bus callbacks + Step-boundary twin + goroutine-profile accounting",
+  "Thousands of Run calls over loop programs (incl. loops of prefixed instructions only, varying starting R) x cancellation modes (inside the bus callback at chosen accesses, from another goroutine, before the call, expired/1 ms deadlines, cancelled parent, never) x GOMAXPROCS 1/2/16: error identity, at most 3000 further bus accesses once the context is done (a count, each followed by a yield/1 ms sleep), final state equal to a whole number of Steps of a twin, no goroutine with z80 frames left after each batch (before and after cancelling the batch's contexts), zero race reports.",
+  "Promptness bound is logical (accesses), the sleeps only hand over the processor.",
+  "DESIGN.md §3 C13"),
+ "C17": ("exploration",
+  "complete comparison of the linked Go tables with records harvested from the canonical images (static decode + walk on the emulator) and pinned digests",
+  "Finite and compared completely (exhaustive: true): image digests vs pins; pointer table located by decoding and by running the canonical program to its own end-of-list test (67 arrivals each); all 65 bytes + description of each of the 2 x 67 cases; no case missing or duplicated; Case.Maxes/Iter.Status against the harness's own port of the counter/shifter.",
+  "pins/ holds digests and records of the pristine images.",
+  "DESIGN.md §3 C17"),
+ "C18": ("exploration",
+  "console/warning/stack monitors around tinycpm runs with breakpoints on every call's return address; end-to-end runs of the built cmd/zexdoc",
+  "Thousands of generated programs of mixed function-2/function-9 calls (strings 0..4096 over every byte but '$', page-straddling addresses), OUT/IN to other ports, JP 0: console bytes in program order, warnings only for non-console traffic, SP and caller code intact after each call, halted at FF03; a sample also through the built binary (stdout, stderr, exit status).",
+  "Unsupported BDOS functions have no specified outcome.",
+  "DESIGN.md §3 C18"),
 }
 
 NOT_YET = "check not built yet in this round (work in progress; see DESIGN.md §3 for the planned monitor)"
